@@ -35,6 +35,17 @@ def make_plan(seed: int, tier: str, opts: dict) -> dict:
             if _sp.in_S(s2) is None:
                 spec = s2
                 break
+    if r.random() < opts.get("trainable_p", 0.2):
+        # one trainable-delay connection (recorded at its minimum delay): the scheduled windows are extended by what the range [min, max] needs
+        cands = [c for c in spec["conns"] if not c["blocking"] and c["jitter"] == "L"]
+        if cands:
+            c = r.choice(cands)
+            per_u = 1.0 / spec["nodes"][c["src"]]["rate"]
+            per = min(per_u, 1.0 / spec["nodes"][c["dst"]]["rate"])
+            dmin = round(per * r.choice([0.0, 0.1, 0.35]), 6)
+            dmax = round(dmin + per_u * r.choice([0.6, 1.0, 1.4, 2.0]), 6)
+            c["dist"] = ["train", dmin, dmax, dmin]
+            c["delay"] = round(min(per, dmin + 0.5 * (dmax - dmin)), 6)
     n_eps = r.choice([1, 2, 3, 3])
     eps = [driver.gen_episode(r, j, open_loop=spec["open_loop"], nsteps=r.randint(3, opts.get("max_steps", 9)), endings=("stop",), override_p=0.0, faults=False) for j in range(n_eps)]
     pairs = [(m, p) for m in compiled.MODES for p in (True, False)]
